@@ -61,6 +61,7 @@ type Failure struct {
 	Expected string `json:"expected"`
 	Observed string `json:"observed"`
 	Count    int64  `json:"count,omitempty"` // how many cases share the signature
+	Tier     string `json:"tier,omitempty"`  // the tier whose index space Family/Index refer to
 }
 
 // T is handed to Family.Run for one case.
@@ -452,11 +453,15 @@ func Main(c *Check, args []string) int {
 			fmt.Fprintln(os.Stderr, err)
 			return 2
 		}
-		// replay uses the thorough families so that every family is addressable
-		fams = c.Families("thorough")
+		// replay in the index space of the tier that found the violation
+		rt := fl.Tier
+		if rt == "" {
+			rt = "quick"
+		}
+		fams = c.Families(rt)
 		for _, f := range fams {
 			if f.Name == fl.Family {
-				runFamily(c, f, "thorough", res, time.Now().Add(time.Hour), fl.Index, fl.Choices)
+				runFamily(c, f, rt, res, time.Now().Add(time.Hour), fl.Index, fl.Choices)
 				if len(res.failures) == 0 {
 					fmt.Printf("REPLAY property=%s family=%s index=%d: no violation\n", c.ID, fl.Family, fl.Index)
 					return 0
@@ -514,6 +519,7 @@ func Main(c *Check, args []string) int {
 			continue
 		}
 		nviol++
+		f.Tier = tier
 		dir := filepath.Join(OutRoot(), "replays", c.ID)
 		os.MkdirAll(dir, 0o755)
 		p := filepath.Join(dir, sigFile(f.Sig))
